@@ -340,9 +340,26 @@ def view_same(who="self"):
     return f
 
 
+cidx = specfn("cidx", [TStr, TStr], TInt, doc="the chunk number k with path == cpath(base, k), for chunk paths")
+axiom("cidx_def", [_base, _k], Imp(_k >= 0, cidx(_base, cpath(_base, _k)) == _k), patterns=[cpath(_base, _k)],
+      note="conservative definition: cidx is the inverse of cpath on k >= 0, which exists because cpath is injective there (lemma cpath_inj)")
+
+
 def fh_grow(E, env):
-    """file objects that existed at entry keep their state and path (new ones may have been opened)"""
+    """frame of every array operation: file objects that existed at entry keep their state and path (new ones may have
+    been opened), and no file other than the array's own chunk files 0 .. file_num-1 is created or changed
+    (in particular the meta file is untouched)"""
     pre_env, pre_heap, pre_ghost = E.old_stack[-1]
+    arr = env.get("self", env.get("result"))
+    if S_U in E.cell(arr)[2]:
+        arr = E.cell(arr)[2][S_U]
+    af = E.cell(arr)[2]
+    base, fn = E.to_sv(af[A_PATH]).t, z3_int(af[A_FN])
+    pth = z3.String("fr_p")
+    newfs, oldfs = _named(E, E.ghostv["fs"].t), pre_ghost["fs"].t
+    is_chunk = And(0 <= cidx(base, pth), cidx(base, pth) < fn, pth == cpath(base, cidx(base, pth)))
+    only_chunks = z3.ForAll([pth], Imp(Not(is_chunk), z3.Select(newfs, pth) == z3.Select(oldfs, pth)),
+                            patterns=[z3.Select(newfs, pth)])
     h = z3.Int("fh_h")
     cache = {}
     def sel(g, src):
@@ -350,10 +367,11 @@ def fh_grow(E, env):
         if (g, id(src)) not in cache:
             cache[(g, id(src))] = _named(E, d.t)
         return sort(TOpt(d.ty.val)).val(z3.Select(cache[(g, id(src))], h))
-    return SV(z3.ForAll([h], Imp(sel("fh_state", pre_ghost) != 0,
-                                 And(sel("fh_state", E.ghostv) == sel("fh_state", pre_ghost),
-                                     sel("fh_path", E.ghostv) == sel("fh_path", pre_ghost))),
-                        patterns=[sel("fh_state", E.ghostv), sel("fh_path", E.ghostv)]), TBool)
+    return SV(And(only_chunks,
+                  z3.ForAll([h], Imp(sel("fh_state", pre_ghost) != 0,
+                                     And(sel("fh_state", E.ghostv) == sel("fh_state", pre_ghost),
+                                         sel("fh_path", E.ghostv) == sel("fh_path", pre_ghost))),
+                            patterns=[sel("fh_state", E.ghostv), sel("fh_path", E.ghostv)])), TBool)
 
 
 SCALARS_SAME = ["self.__local_path == old(self.__local_path)", "self.__item_size == old(self.__item_size)",
@@ -363,7 +381,7 @@ AINV = ["inv(self)", cache_ok()]
 FGHOST = ["fs", "fh_state", "fh_path", "fh_pos"]
 CP = "cpath(self.__local_path, file_id)"
 contract(SMF + "._get_file_by_id", params=dict(self=SMFT, file_id=TInt), returns=TFile, modifies=["self"],
-         requires=AINV + ["0 <= file_id", "file_id < self.__file_num"], reveal=["cpath"],
+         requires=AINV + ["0 <= file_id", "file_id < self.__file_num"], reveal=["cpath"], lemmas=["cidx_def"],
          ensures=AINV + SCALARS_SAME + [fh_grow,
                  "fh_state[result] == 1", "fh_path[result] == " + CP, CP + " in fs",
                  "fs == (old(fs) if %s in old(fs) else dput(old(fs), %s, b''))" % (CP, CP)],
@@ -385,7 +403,7 @@ contract(SMF + "._get_bytes_by_index", params=dict(self=SMFT, index=TInt), retur
          modifies_ghost=FGHOST, no_runtime=True, props=["C19"])
 PADDED = "zeros(self.__item_size - len(content)) + content"
 contract(SMF + "._write_bytes_to_file", params=dict(self=SMFT, index=TInt, content=TBytes), modifies=["self"],
-         requires=AINV + IDX_OK, hints=FILE_HINTS,
+         requires=AINV + IDX_OK, hints=FILE_HINTS, lemmas=["cidx_def"],
          raises={"ValueError": dict(when="len(content) > self.__item_size", iff=True)},
          raise_ensures={"ValueError": NOFX + SCALARS_SAME + ["self.__opened_files == old(self.__opened_files)"]},
          ensures=AINV + SCALARS_SAME + [fh_grow,
@@ -516,11 +534,15 @@ def no_chunks(E, env):
     return SV(z3.ForAll([k], OBY.is_none(z3.Select(fs, cpath(base, k))), patterns=[cpath(base, k)]), TBool)
 
 
-def view_zero(E, env):
-    base, m, sz = (_afld(E, env, n) for n in (A_PATH, A_M, A_SZ))
+def view_zero_of(E, env, who="self"):
+    base, m, sz = (_afld(E, env, n, who) for n in (A_PATH, A_M, A_SZ))
     j = z3.Int("vj")
     fs = _named(E, E.ghostv["fs"].t)
     return SV(z3.ForAll([j], Imp(j >= 0, aitem(fs, base, m, sz, j) == zeros(sz)), patterns=[aitem(fs, base, m, sz, j)]), TBool)
+
+
+def view_zero(E, env):
+    return view_zero_of(E, env, "self")
 
 
 KW = TPyDict(dict(item_size=TInt, array_len=TInt, item_num_in_one_file=TInt))
@@ -535,10 +557,250 @@ contract(SMF + ".__init__#c", params=dict(self=SMFT, local_path=TStr, mode=TStr,
              "fs == dput(old(fs), %s, pickled_meta((kwargs['item_size'], kwargs['array_len'], kwargs['item_num_in_one_file'])))" % MP,
              view_zero],
          modifies_ghost=FGHOST, no_runtime=True, props=["C19"])
-contract(SMF + ".__init__#r", params=dict(self=SMFT, local_path=TStr, mode=TStr), param_values={"mode": "r"}, modifies=["self"],
+contract(SMF + ".__init__#r", params=dict(self=SMFT, local_path=TStr, mode=TStr, kwargs=TPyDict({})), param_values={"mode": "r"}, modifies=["self"],
          ghost={"g_sz": TInt, "g_len": TInt, "g_m": TInt}, locals={"pickled_object": META},
          requires=["g_sz >= 1", "g_len >= 1", "g_m >= 1",
                    "implies((%s) in fs, fs[%s] == pickled_meta((g_sz, g_len, g_m)))" % (MP, MP)],
          raises={"FileNotFoundError": dict(when="(%s) not in old(fs)" % MP, iff=True)}, raise_ensures={"FileNotFoundError": NOFX},
          ensures=AINV + FIELDS_ARE("g_sz", "g_len", "g_m") + ["fs == old(fs)"],
          modifies_ghost=["fh_state", "fh_path", "fh_pos"], no_runtime=True, props=["C19"])
+
+
+# =====================================================================================================================
+# SPFLBArray: the public wrapper (typestate open / closed) and the interface's derived operations
+# =====================================================================================================================
+SPF = PAM + "SPFLBArray"
+CFA = PAM + "_ClosedFixedLengthBytesArray"
+CDS = PAM + "_ClosedDescriptor"
+IFA = "data_persistence/interfaces.py:PersistentFixedLengthBytesArray"
+S_PATH, S_U = "_SPFLBArray__local_path", "_SPFLBArray__underlying_array"
+klass(CFA, fields={})
+klass(CDS, fields={"_ClosedDescriptor__error_msg": TStr})
+inline(CFA + ".closed", CDS + ".__init__", CDS + ".__get__", CDS + ".__set__")
+klass(SPF, fields={S_PATH: TStr, S_U: SMFT})
+klass(SPF, state="closed", fields={S_PATH: TStr, S_U: TObj(CFA)})
+SPFT, SPFC = TObj(SPF), TObj(SPF + "@closed")
+UW = "self>" + S_U
+UP = "self.__underlying_array"
+
+
+def U(specs, who=UW):
+    """restate specifications of the underlying array for the wrapper (self.__x  ->  self.__underlying_array.__x)"""
+    out = []
+    for s in specs:
+        if isinstance(s, str):
+            out.append(s.replace("inv(self)", "inv(%s)" % UP).replace("self.__", UP + ".__"))
+        elif getattr(s, "rebuild", None):
+            out.append(s.rebuild(who))
+        else:
+            out.append(s)
+    return out
+
+
+def _rebuildable(maker, *args):
+    f = maker(*args)
+    f.rebuild = lambda who: maker(*[a.replace("self.__", UP + ".__") if isinstance(a, str) else a for a in args], who=who)
+    return f
+
+
+U_AINV = ["inv(%s)" % UP, cache_ok(UW)]
+U_SAME = U(SCALARS_SAME) + ["self.__local_path == old(self.__local_path)"]
+U_RO = U_AINV + U_SAME + [fh_grow, view_same(UW)]
+U_AIT = AIT.replace("self.__", UP + ".__")
+U_APK = APK.replace("self.__", UP + ".__")
+ULEN = UP + ".__array_len"
+OUT_OF_RANGE = "%s >= {0} or %s < -{0}".format(ULEN)
+contract(SPF + ".__len__", params=dict(self=SPFT), returns=TInt, ensures=["result == " + ULEN] + NOFX, no_runtime=True, props=["C19"])
+inline(SPF + ".item_size", SMF + ".item_size", SPF + ".local_path", SMF + ".local_path", SPF + ".sync")
+contract(SPF + ".__getitem__#int", params=dict(self=SPFT, item=TInt), returns=TBytes, modifies=["self"], requires=U_AINV,
+         raises={"IndexError": dict(when=OUT_OF_RANGE % ("item", "item"), iff=True)}, raise_ensures={"IndexError": NOFX},
+         ensures=U_RO + ["result == " + U_AIT % ("old(fs)", "item % " + ULEN), "len(result) == %s.__item_size" % UP],
+         modifies_ghost=FGHOST, no_runtime=True, props=["C19"])
+USI = "item.indices(%s)" % ULEN
+contract(SPF + ".__getitem__#slice", params=dict(self=SPFT, item=TSlice), returns=TList(TBytes), modifies=["self"],
+         requires=U_AINV + ["item.step is None or item.step != 0"],
+         ensures=U_RO + ["result == " + U_APK % (USI + "[0]", USI + "[2]", "len(result)")] +
+                 [r.replace(SI, USI) for r in RANGE_CNT],
+         modifies_ghost=FGHOST, no_runtime=True, props=["C19"])
+UKN = "key % " + ULEN
+UPADV = "zeros(%s.__item_size - len(value)) + value" % UP
+contract(SPF + ".__setitem__#int", params=dict(self=SPFT, key=TInt, value=TBytes), modifies=["self"], requires=U_AINV,
+         raises={"IndexError": dict(when=OUT_OF_RANGE % ("key", "key"), iff=True),
+                 "ValueError": dict(when="not (%s) and len(value) > %s.__item_size" % (OUT_OF_RANGE % ("key", "key"), UP), iff=True)},
+         raise_ensures={"IndexError": NOFX, "ValueError": NOFX},
+         ensures=U_AINV + U_SAME + [fh_grow, view_upd(UKN, UPADV, who=UW)],
+         modifies_ghost=FGHOST, no_runtime=True, props=["C19"])
+contract(SPF + ".__setitem__#notbytes", params=dict(self=SPFT, key=TInt, value=TInt), modifies=["self"], requires=U_AINV,
+         raises={"IndexError": dict(when=OUT_OF_RANGE % ("key", "key"), iff=True),
+                 "TypeError": dict(when="not (%s)" % (OUT_OF_RANGE % ("key", "key")), iff=True)},
+         raise_ensures={"IndexError": NOFX, "TypeError": NOFX},
+         modifies_ghost=FGHOST, no_runtime=True, props=["C19"])
+contract(SPF + ".__iter__", params=dict(self=SPFT), returns=TList(TBytes), modifies=["self"], requires=U_AINV,
+         ensures=U_RO + ["result == " + U_APK % ("0", "1", ULEN), "len(result) == " + ULEN],
+         modifies_ghost=FGHOST, no_runtime=True, props=["C19"])
+contract(SPF + ".close", params=dict(self=SPFT), modifies=["self"], requires=["inv(%s)" % UP], becomes={"self": SPF + "@closed"},
+         ensures=["fs == old(fs)", "fh_path == old(fh_path)", "self.__local_path == old(self.__local_path)"],
+         modifies_ghost=["fh_state", "fh_pos"], no_runtime=True, props=["C19"])
+
+# ---- derived operations of the interface: deletion = zero fill, clear ---------------------------------------------------------
+ZI = "zeros(%s.__item_size)" % UP
+contract(IFA + "._set_all_zeros_by_index", params=dict(self=SPFT, index=TInt), modifies=["self"], requires=U_AINV,
+         raises={"IndexError": dict(when=OUT_OF_RANGE % ("index", "index"), iff=True)}, raise_ensures={"IndexError": NOFX},
+         lemmas=["zeros_len"],
+         ensures=U_AINV + U_SAME + [fh_grow, view_upd("index % " + ULEN, ZI, who=UW)],
+         modifies_ghost=FGHOST, no_runtime=True, props=["C19"])
+contract(IFA + ".__delitem__#int", params=dict(self=SPFT, i=TInt), modifies=["self"], requires=U_AINV,
+         raises={"IndexError": dict(when=OUT_OF_RANGE % ("i", "i"), iff=True)}, raise_ensures={"IndexError": NOFX},
+         ensures=U_AINV + U_SAME + [fh_grow, view_upd("i % " + ULEN, ZI, who=UW)],
+         modifies_ghost=FGHOST, no_runtime=True, props=["C19"])
+
+
+def view_cleared(upto_src, who=UW):
+    """items below `upto` read as zeros, the others are as at entry"""
+    def f(E, env):
+        pre_env, pre_heap, pre_ghost = E.old_stack[-1]
+        base, m, sz = (_afld(E, env, n, who) for n in (A_PATH, A_M, A_SZ))
+        upto = z3_int(E.spec_eval(upto_src, env, old=True))
+        j = z3.Int("vj")
+        new, old_ = _named(E, E.ghostv["fs"].t), pre_ghost["fs"].t
+        return SV(z3.ForAll([j], Imp(j >= 0, aitem(new, base, m, sz, j) == z3.If(j < upto, zeros(sz), aitem(old_, base, m, sz, j))),
+                            patterns=[aitem(new, base, m, sz, j)]), TBool)
+    return f
+
+
+contract(IFA + ".clear", params=dict(self=SPFT), modifies=["self"], requires=U_AINV,
+         ensures=U_AINV + U_SAME + [fh_grow, view_cleared(ULEN)],
+         loops={0: dict(invariant=U_AINV + U_SAME + [fh_grow, view_cleared("it"), "n_iter == " + ULEN])},
+         modifies_ghost=FGHOST, no_runtime=True, props=["C19"])
+
+# ---- wrapper construction ------------------------------------------------------------------------------------------------
+contract(SPF + ".__init__#c", params=dict(self=SPFT, local_path=TStr, mode=TStr, kwargs=KW), param_values={"mode": "c"},
+         modifies=["self"], requires=CONTRACTS[SMF + ".__init__#c"].requires,
+         raises={"FileExistsError": dict(when="(%s) in old(fs)" % MP, iff=True)}, raise_ensures={"FileExistsError": NOFX},
+         ensures=U_AINV + ["self.__local_path == local_path"] + U(FIELDS_ARE("kwargs['item_size']", "kwargs['array_len']", "kwargs['item_num_in_one_file']")) + [
+             "fs == dput(old(fs), %s, pickled_meta((kwargs['item_size'], kwargs['array_len'], kwargs['item_num_in_one_file'])))" % MP,
+             (lambda E, env: view_zero_of(E, env, UW))],
+         modifies_ghost=FGHOST, no_runtime=True, props=["C19"])
+contract(SPF + ".__init__#r", params=dict(self=SPFT, local_path=TStr, mode=TStr, kwargs=TPyDict({})), param_values={"mode": "r"}, modifies=["self"],
+         ghost={"g_sz": TInt, "g_len": TInt, "g_m": TInt}, requires=CONTRACTS[SMF + ".__init__#r"].requires,
+         raises={"FileNotFoundError": dict(when="(%s) not in old(fs)" % MP, iff=True)}, raise_ensures={"FileNotFoundError": NOFX},
+         ensures=U_AINV + ["self.__local_path == local_path"] + U(FIELDS_ARE("g_sz", "g_len", "g_m")) + ["fs == old(fs)"],
+         modifies_ghost=["fh_state", "fh_path", "fh_pos"], no_runtime=True, props=["C19"])
+contract(SPF + ".open", params=dict(cls=TAny, local_path=TStr), returns=SPFT, param_values={"cls": ClassRef(SPF)},
+         ghost={"g_sz": TInt, "g_len": TInt, "g_m": TInt}, requires=CONTRACTS[SMF + ".__init__#r"].requires,
+         raises={"FileNotFoundError": dict(when="(%s) not in old(fs)" % MP, iff=True)}, raise_ensures={"FileNotFoundError": NOFX},
+         ensures=[s.replace("self.", "result.").replace("inv(self", "inv(result") if isinstance(s, str) else s
+                  for s in (["inv(%s)" % UP, "self.__local_path == local_path"] + U(FIELDS_ARE("g_sz", "g_len", "g_m")) + ["fs == old(fs)"])]
+                 + [cache_ok("result>" + S_U)],
+         modifies_ghost=["fh_state", "fh_path", "fh_pos"], no_runtime=True, props=["C19"])
+
+# ---- a closed array refuses every operation ----------------------------------------------------------------------------------
+for nm_, ps_ in (("__getitem__", dict(item=TInt)), ("__setitem__", dict(key=TInt, value=TBytes)), ("__len__", {}), ("__iter__", {})):
+    contract(SPF + "." + nm_ + "#closed", params=dict(self=SPFC, **ps_), no_runtime=True, props=["C19"], **CLOSED_RAISES)
+for nm_, ps_ in (("__delitem__", dict(i=TInt)), ("clear", {}), ("_set_all_zeros_by_index", dict(index=TInt))):
+    contract(IFA + "." + nm_ + "#closed", params=dict(self=SPFC, **ps_), no_runtime=True, props=["C19"], **CLOSED_RAISES)
+contract(SPF + ".close#closed", params=dict(self=SPFC), modifies=["self"], becomes={"self": SPF + "@closed"},
+         ensures=NOFX + ["self.__local_path == old(self.__local_path)"], no_runtime=True, props=["C19"])
+
+# ---- client lemmas: the history clauses of C19 over the contracts above ---------------------------------------------------
+GA = "data_persistence/persistent_array.py"
+
+
+def meta_is(who, a, b, c):
+    """the meta file holds the pickle of the array's three parameters"""
+    def f(E, env):
+        base = _afld(E, env, A_PATH, who)
+        vals = [z3_int(E.spec_eval(x, env, old=True)) for x in (a, b, c)]
+        t = sort(META).mk(*vals)
+        return SV(z3.Select(E.ghostv["fs"].t, z3.Concat(base, z3.StringVal("_meta"))) == OBY.some(_mpk(t)), TBool)
+    return f
+
+
+def same_view_as_entry(new_who, old_who):
+    """every item of the array object `new_who` (now) equals the item of `old_who` at entry"""
+    def f(E, env):
+        pre_env, pre_heap, pre_ghost = E.old_stack[-1]
+        nb, nm, ns = (_afld(E, env, n, new_who) for n in (A_PATH, A_M, A_SZ))
+        saved = E.heap
+        E.heap = pre_heap
+        try:
+            ob, om, os_ = (_afld(E, pre_env, n, old_who) for n in (A_PATH, A_M, A_SZ))
+        finally:
+            E.heap = saved
+        j = z3.Int("vj")
+        new = _named(E, E.ghostv["fs"].t)
+        return SV(z3.ForAll([j], Imp(j >= 0, aitem(new, nb, nm, ns, j) == aitem(pre_ghost["fs"].t, ob, om, os_, j)),
+                            patterns=[aitem(new, nb, nm, ns, j)]), TBool)
+    return f
+
+
+AW = "a>" + S_U
+A_INV = ["inv(a.__underlying_array)", cache_ok(AW)]
+contract("ghost:pa_write_close_reopen", params=dict(a=SPFT, k=TInt, v=TBytes), returns=SPFT, ghost_scope=GA,
+         ghost={"g_sz": TInt, "g_len": TInt, "g_m": TInt},
+         body="""def pa_write_close_reopen(a, k, v):
+    path = a.local_path
+    a[k] = v
+    a.close()
+    return SPFLBArray.open(path)
+""",
+         requires=A_INV + ["a.__local_path == a.__underlying_array.__local_path", "g_sz == a.__underlying_array.__item_size",
+                           "g_len == a.__underlying_array.__array_len", "g_m == a.__underlying_array.__item_num_in_one_file",
+                           "g_sz >= 1", "g_len >= 1", "g_m >= 1", meta_is(AW, "g_sz", "g_len", "g_m"),
+                           "-g_len <= k", "k < g_len", "len(v) <= g_sz"],
+         modifies=["a"], lemmas=["cpath_not_meta", "cidx_def"],
+         ensures=["result.__underlying_array.__array_len == g_len", "result.__underlying_array.__item_size == g_sz",
+                  lambda E, env: view_upd_between(E, env)],
+         modifies_ghost=FGHOST, props=["C19"])
+
+
+def view_upd_between(E, env):
+    pre_env, pre_heap, pre_ghost = E.old_stack[-1]
+    nb, nm, ns = (_afld(E, env, n, "result>" + S_U) for n in (A_PATH, A_M, A_SZ))
+    saved = E.heap
+    E.heap = pre_heap
+    try:
+        ob, om, os_ = (_afld(E, pre_env, n, AW) for n in (A_PATH, A_M, A_SZ))
+    finally:
+        E.heap = saved
+    idx = z3_int(E.spec_eval("k % g_len", env, old=True))
+    val = E.to_sv(E.spec_eval("zeros(g_sz - len(v)) + v", env, old=True), TBytes).t
+    j = z3.Int("vj")
+    new = _named(E, E.ghostv["fs"].t)
+    return SV(z3.ForAll([j], Imp(j >= 0, aitem(new, nb, nm, ns, j) == z3.If(j == idx, val, aitem(pre_ghost["fs"].t, ob, om, os_, j))),
+                        patterns=[aitem(new, nb, nm, ns, j)]), TBool)
+contract("ghost:pa_clear_reads_zero", params=dict(a=SPFT, k=TInt), returns=TBytes, ghost_scope=GA,
+         body="""def pa_clear_reads_zero(a, k):
+    a.clear()
+    return a[k]
+""",
+         requires=A_INV + ["-a.__underlying_array.__array_len <= k", "k < a.__underlying_array.__array_len"],
+         modifies=["a"], lemmas=["zeros_len"],
+         ensures=["result == zeros(a.__underlying_array.__item_size)"],
+         modifies_ghost=FGHOST, props=["C19"])
+contract("ghost:pa_delete_then_read", params=dict(a=SPFT, i=TInt, k=TInt), returns=TBytes, ghost_scope=GA,
+         body="""def pa_delete_then_read(a, i, k):
+    del a[i]
+    return a[k]
+""",
+         requires=A_INV + ["-a.__underlying_array.__array_len <= k", "k < a.__underlying_array.__array_len",
+                           "-a.__underlying_array.__array_len <= i", "i < a.__underlying_array.__array_len"],
+         modifies=["a"], lemmas=["zeros_len"],
+         ensures=["result == (zeros(a.__underlying_array.__item_size) if k % a.__underlying_array.__array_len == i % a.__underlying_array.__array_len else "
+                  "aitem(old(fs), a.__underlying_array.__local_path, a.__underlying_array.__item_num_in_one_file, a.__underlying_array.__item_size, k % a.__underlying_array.__array_len))"],
+         modifies_ghost=FGHOST, props=["C19"])
+contract("ghost:pa_failed_write_changes_nothing", params=dict(a=SPFT, k=TInt, v=TBytes), ghost_scope=GA,
+         body="""def pa_failed_write_changes_nothing(a, k, v):
+    a[k] = v
+""",
+         requires=A_INV + ["k >= a.__underlying_array.__array_len or k < -a.__underlying_array.__array_len or len(v) > a.__underlying_array.__item_size"],
+         modifies=["a"],
+         raises={"IndexError": dict(when="k >= a.__underlying_array.__array_len or k < -a.__underlying_array.__array_len", iff=True),
+                 "ValueError": dict(when="not (k >= a.__underlying_array.__array_len or k < -a.__underlying_array.__array_len)", iff=True)},
+         raise_ensures={"IndexError": NOFX, "ValueError": NOFX},
+         modifies_ghost=FGHOST, props=["C19"])
+for op_, call_ in (("get", "a[k]"), ("set", "a[k] = v"), ("del", "del a[k]"), ("len", "len(a)"), ("iter", "iter(a)"), ("clear", "a.clear()")):
+    contract("ghost:pa_closed_refuses_" + op_, params=dict(a=SPFT, k=TInt, v=TBytes), ghost_scope=GA,
+             body="def pa_closed_refuses_%s(a, k, v):\n    a.close()\n    %s\n" % (op_, call_),
+             requires=A_INV, modifies=["a"], raises={"ValueError": dict(when="True", iff=True)},
+             modifies_ghost=FGHOST, props=["C19"])
